@@ -14,7 +14,7 @@ git -C $WT apply -R $(pwd)/$OUT/patch.diff
 git -C $WT apply $(pwd)/$OUT/patch.diff
 echo "[$ID] pytest: $(cat $OUT/pytest.txt) | demo changed rc=$(cat $OUT/demo_changed.rc) orig rc=$(cat $OUT/demo_orig.rc)"
 for P in $PROPS; do
-  VP_REPO=$WT VP_EVIDENCE_DIR=$(pwd)/work/seeded-evidence/$ID ./check $P --no-conform > $OUT/check_$P.out 2> $OUT/check_$P.err
+  VP_REPO=$WT VP_EVIDENCE_DIR=$(pwd)/work/seeded-evidence/$ID ./check $P --no-conform $SEED_EVAL_FLAGS > $OUT/check_$P.out 2> $OUT/check_$P.err
   rc=$?
   echo "[$ID] check $P rc=$rc violations=$(grep -c '^VIOLATION' $OUT/check_$P.out) $(grep -h 'obligations=' $OUT/check_$P.err | tail -1 | sed 's/.*\] //')"
   grep -h "^VIOLATION" -A1 $OUT/check_$P.out $OUT/check_$P.err 2>/dev/null | head -4 | cut -c1-300
